@@ -1,8 +1,9 @@
 #!/bin/sh
-# usage: tools/run_all.sh [tier] [seed]   -- runs every registered check, prints id, exit code, seconds
+# usage: tools/run_all.sh [tier] [seed] ["C04 C05 ..."]  -- runs every (or the listed) registered check, prints id, exit code, seconds
 TIER="${1:-quick}"; SEED="${2:-0}"
 cd "$(dirname "$0")/.."
-for id in C01 C02 C03 C04 C05 C06 C07 C08 C09 C10 C11 C12 C13 C14 C15 C16 C17 C18 C19 C20; do
+IDS="${3:-C01 C02 C03 C04 C05 C06 C07 C08 C09 C10 C11 C12 C13 C14 C15 C16 C17 C18 C19 C20}"
+for id in $IDS; do
   s=$(date +%s)
   VERIF_SEED=$SEED timeout 7200 ./check $id --tier $TIER > /dev/shm/runall.$id.$TIER.$SEED.log 2>&1
   rc=$?
